@@ -274,6 +274,17 @@ def judge(rule, model, feeds, spec=None, accum=False):
             res["within_accum_roundoff"] = res.get("within_accum_roundoff", 0) + 1
             d = None
         if d:
+            # symmetric caution: the two runtimes must also agree about the REWRITTEN model.  When the reference
+            # evaluator runs it and reproduces the original outputs, ORT and onnx.reference disagree about the
+            # rewritten model (e.g. a kernel that rounds an attribute differently): nothing is concluded.
+            try:
+                got_ref = runeq.run_ref(after, fd)
+                ok_ref = runeq.compare(ref, got_ref) is None or (accum and _close_accum(ref, got_ref))
+            except Exception:  # noqa: BLE001
+                ok_ref = False
+            if ok_ref:
+                res["skipped"]["after-runtimes-disagree"] = res["skipped"].get("after-runtimes-disagree", 0) + 1
+                continue
             res["problems"].append(("not-equivalent", {"feed": k, "diff": d,
                                                        "inputs": {n: runeq.describe(v) for n, v in fd.items()},
                                                        "before": runeq.describe(ref), "after": runeq.describe(got)}))
